@@ -18,7 +18,7 @@ func init() {
 		ID:          "C11",
 		Explanation: "Decided: (methods) the compiler's dispatch on js.Object method names covers the method set of js.Object computed from the type-checked js package, each accessor internalises with exactly the method's declared result type, and the special package-level names of js are all handled; (doc) the conversion table in the js package comment agrees with $nativeArray (Go slice element kind → typed array) and with the constructor dispatch of $internalize's interface arm (JavaScript value → Go type); (kinds) $externalize, $internalize and $needsExternalization have an arm for every $kind or end in the documented cannot-externalize/internalize error, and the compiler's identity fast paths are a subset of the kinds the prelude passes through unchanged — evaluated over the finite set of basic kinds; (coerce) integer arms wrap like fixNumber (shared with C06); (cache) a Go function externalises to one cached wrapper; (guard) blocking inside a JavaScript callback throws. (utf16) in the string arms of $externalize/$internalize every comparison against a constant of the surrogate region splits at a UTF-16 class boundary, the surrogate-pair composition inverts the decomposition on the corner points of U+10000..U+10FFFF, the pair is composed exactly under the high-surrogate test and advances by two. NOT decided: value round trips (UTF-16 transcoding, 64-bit ranges, NaN/−0), nested composites.",
 		Assumptions: []string{"the js package comment table is the documented conversion contract"},
-		Rules:       []RuleFunc{ruleC11Methods, ruleC11Doc, ruleC11Kinds, ruleC11Misc, ruleC11UTF16, ruleC06Coerce, ruleRawBackingArray, ruleC11JsTag, ruleC11ParseFloat, ruleC11SeenCache, ruleSliceElemOffset, ruleC11TagIdentifier},
+		Rules:       []RuleFunc{ruleC11Methods, ruleC11Doc, ruleC11Kinds, ruleC11Misc, ruleC11UTF16, ruleC06Coerce, ruleRawBackingArray, ruleC11JsTag, ruleC11ParseFloat, ruleC11SeenCache, ruleSliceElemOffset, ruleC11TagIdentifier, ruleC11ArrayBufferOffset},
 	})
 }
 
